@@ -44,6 +44,8 @@ MUTANTS = [
     ('C11', 'supp/util.py', r"        if not PY2:\n            char_columns\(tree, self\.lines\)\n", "", 'C11-R1'),
     ('C01', 'supp/scope.py', r"                if self\.scope is self\.scope\.top:\n", "                if False:\n", 'C01-R2'),
     ('C01', 'supp/scope.py', r"            for name in star_names\(module\._attrs\):\n", "            for name in [n for n in module._attrs if not n.startswith('_')]:\n", 'C01-R7'),
+    ('C16', 'supp/remote.py', r"            prepare_thread = self\.prepare_thread\n            if prepare_thread:\n                prepare_thread\.join\(\)\n\n            try:\n                self\.conn\n", "            try:\n                self.conn\n", 'C16-R5'),
+    ('C16', 'supp/remote.py', r"                except \(OSError, EOFError\):\n                    pass  # the server is already gone\n                finally:\n                    self\.conn\.close\(\)\n                    del self\.conn\n", "                except ValueError:\n                    pass\n                self.conn.close()\n                del self.conn\n", 'C16-R5'),
     # ---- C02
     ('C02', 'supp/scope.py', r"if len\(self\.parents\) == 1:", "if len(self.parents) >= 1:", 'C02-R4'),
     ('C02', 'supp/nast.py', r"self\.flow = self\.make_flow\('join', \[body, orelse\]\)", "self.flow = self.make_flow('join', [orelse])", 'C02-R1'),
